@@ -528,8 +528,35 @@ def s_callable(I, args, kw):
     return callable(args[0])
 
 
+def s_range(I, args, kw):
+    """range with symbolic bounds: the *count* is made concrete (forking), the elements stay symbolic."""
+    if not any(isinstance(a, (SInt, SBool)) for a in args):
+        return range(*args)
+    if len(args) == 1:
+        start, stop, step = 0, args[0], 1
+    elif len(args) == 2:
+        (start, stop), step = args, 1
+    else:
+        start, stop, step = args
+    E = sym.engine()
+    if isinstance(step, (SInt, SBool)):
+        step = E.concretize(step, what='range step')
+    if step != 1:
+        start = E.concretize(start, what='range start') if isinstance(start, (SInt, SBool)) else start
+        stop = E.concretize(stop, what='range stop') if isinstance(stop, (SInt, SBool)) else stop
+        return range(start, stop, step)
+    d = stop - start
+    if isinstance(d, SInt):
+        t = z3.simplify(d.t)
+        n = t.as_long() if z3.is_int_value(t) else E.concretize(Max(d, 0), what='range length', limit=256)
+    else:
+        n = d
+    return [start + i for i in range(max(0, n))]
+
+
 def install(I):
     S = I.summaries
+    S[range] = s_range
     S[struct.unpack] = s_unpack
     S[struct.unpack_from] = s_unpack_from
     S[struct.pack] = s_pack
